@@ -86,7 +86,11 @@ PROPS = {
         level_note="trusted: TLC and the TLA+ encoder; generator scope (n <= 3, 4 in thorough; filler lengths {0,2,6,16})",
         technique="behaviour replay: TLC-generated layouts read by the real code, results validated by TLC",
         mc=[CODEC_MC],
-        stages=[dict(cmd="foreign", spec="Trace_Foreign", gen="Gen_Layouts", quick=dict(chunks=8), thorough=dict(chunks=16))],
+        stages=[dict(cmd="foreign", spec="Trace_Foreign", gen="Gen_Layouts", quick=dict(chunks=8), thorough=dict(chunks=16)),
+                # an index of more entries than any pre-allocation cap (1 500 records): count, random access around
+                # 1 023..1 025 and at the end, full iteration (the reader stage always contains that file)
+                dict(cmd="reader", spec="Trace_Reader", quick=dict(chunks=2, nrecs="2", maxlen=1, random=2, types=2),
+                     thorough=dict(chunks=4, nrecs="2,4", maxlen=2, random=20, types=13))],
         rule="a case = one generated (.shp, .shx) pair; exhaustive over the generator's scope",
         exhaustive=True,
     ),
@@ -318,7 +322,10 @@ PROPS = {
                 dict(cmd="geo", spec="Trace_Geo", quick=dict(chunks=3, cases=300), thorough=dict(chunks=8, cases=3000)),
                 dict(cmd="writer", spec="Trace_Writer", histfile=True,
                      quick=dict(chunks=4, maxlen=2, random=6, modeltypes=0, rank=1),
-                     thorough=dict(chunks=12, maxlen=3, random=40, modeltypes=4, rank=1))],
+                     thorough=dict(chunks=12, maxlen=3, random=40, modeltypes=4, rank=1)),
+                # a write that failed before a byte was emitted is not a written shape: the header box ignores it
+                dict(cmd="faults", spec="Trace_Writer", quick=dict(chunks=8, types=13, hists=1),
+                     thorough=dict(chunks=16, types=13, hists=3))],
         rule="a case = 0..4 shapes whose vertices are drawn over ranked value ids with the extreme at random positions "
              "(first/middle/last vertex, any part, any shape); each trace file uses its own order-preserving concretisation",
     ),
@@ -354,5 +361,17 @@ PROPS = {
                      thorough=dict(chunks=16, types=13, hists=3))],
         rule="a case = shapes of one type; size_in_bytes, length of write_to output and the record's content-length "
              "field are compared with the specification's ContentSize",
+    ),
+    # not a listed property and not in MANIFEST.json: the specification of the public surface no property covers
+    # (./vcheck BEYOND quick|thorough); mismatches print SPEC-MISMATCH lines, coverage goes to beyond/coverage.json
+    "BEYOND": dict(
+        level="other",
+        level_text="Surface.tla on recorded calls: Display of values / types / errors, box range accessors, Vec <-> multipoint, "
+                   "Vec -> ring, polyline -> polygon, ring accessors, table-info plumbing of the complete reader and writer",
+        level_note="beyond the listed properties",
+        technique=TECH_TRACE,
+        mc=[],
+        stages=[dict(cmd="surface", spec="Trace_Surface", quick=dict(chunks=4, cases=40), thorough=dict(chunks=12, cases=400))],
+        rule="a case = one value or one call",
     ),
 }
